@@ -40,6 +40,10 @@ int	dupmachine(int);
 void	mkxtion(int, int);
 
 
+/* Set by finish_rule(), cleared by begin_rule_action(). */
+static bool action_prologue_pending = false;
+
+
 /* add_accept - add an accepting state to a machine
  *
  * accepting_number becomes mach's accepting number.
@@ -273,6 +277,28 @@ void    finish_rule (int mach, bool variable_trail_rule, int headcnt, int trailc
 				("M4_HOOK_TAKE_YYTEXT\n");
 		}
 	}
+
+	/* The rest of the prologue depends on whether the action is '|',
+	 * which the scanner may not have seen yet (a rule ending in '$' is
+	 * reduced before the scanner gets there): begin_rule_action() does
+	 * it once the action has been reached.
+	 */
+	action_prologue_pending = true;
+}
+
+
+/* begin_rule_action - finish the prologue of the current rule's action
+ *
+ * Called when the scanner has reached the rule's action (or found it to be
+ * '|'), so continued_action is that of this rule.
+ */
+
+void    begin_rule_action (void)
+{
+	if (!action_prologue_pending)
+		return;
+
+	action_prologue_pending = false;
 
 	/* Okay, in the action code at this point yytext and yyleng have
 	 * their proper final values for this rule, so here's the point
